@@ -46,9 +46,14 @@ def _hook(event, args):
         if isinstance(flags, int) and flags & WRITE_FLAGS:
             p = _norm(path)
             if p is not None:
-                kind = "create" if not os.path.lexists(p) else (
-                    "truncate" if flags & os.O_TRUNC else "open-write")
+                kind = "append" if flags & os.O_APPEND else (
+                    "create" if not os.path.lexists(p) else (
+                        "truncate" if flags & os.O_TRUNC else "open-write"))
                 rec = (kind, p)
+        elif tracer.reads is not None:
+            p = _norm(path)
+            if p is not None and (tracer.read_root is None or p.startswith(tracer.read_root)):
+                tracer.reads.append(p)
     elif event in ("os.remove", "os.rmdir", "os.mkdir", "os.truncate", "os.chmod", "os.chown",
                    "os.utime"):
         p = _norm(args[0])
@@ -78,7 +83,9 @@ def _hook(event, args):
 
 
 class Tracer:
-    def __init__(self, fence=None, on_event=None):
+    def __init__(self, fence=None, on_event=None, read_root=None, record_reads=False):
+        self.reads = [] if record_reads else None
+        self.read_root = os.path.abspath(read_root) if read_root else None
         self.events = []
         self.escapes = []
         self.fence = [os.path.abspath(r) for r in fence] if fence else None
@@ -91,11 +98,11 @@ class Tracer:
 
 
 @contextlib.contextmanager
-def traced(fence=None, on_event=None):
+def traced(fence=None, on_event=None, read_root=None, record_reads=False):
     if not _INSTALLED[0]:
         sys.addaudithook(_hook)
         _INSTALLED[0] = True
-    tracer = Tracer(fence, on_event)
+    tracer = Tracer(fence, on_event, read_root, record_reads)
     _ACTIVE.append(tracer)
     try:
         yield tracer
